@@ -492,5 +492,5 @@ func min(a, b int) int {
 }
 
 func TestC09(t *testing.T) {
-	drv.Main(t, drv.Driver{ID: "C09", Gen: gen09, Run: run09, CaseTimeout: 5 * time.Minute})
+	drv.Main(t, drv.Driver{ID: "C09", Gen: gen09, Run: run09, CaseTimeout: 30 * time.Minute})
 }
